@@ -35,7 +35,7 @@ LIMS_ND_QUICK = ['Koren']
 
 
 def bounds(tier):
-    return {"cells_per_axis": "1..3", "spacing_templates": ["U", "I"] if tier == "quick" else ["U", "G", "I"],
+    return {"operator_level_grids": U.grid_bounds(tier), "solver_level": {"cells_per_axis": "1..3", "spacing_templates": ["U", "I"] if tier == "quick" else ["U", "G", "I"]},
             "dt": ["2^-10", "1", "2^10"], "steps": 3}
 
 
